@@ -51,7 +51,7 @@ Contract(R_, 'FetchRule.consult_filters',
              ('complete', waiver('url_info', 'url_record', 'truthy(is_redirect)')[1]),
              ('reason', 'implies(self._url_filter is not None, result[2] is not None and (result[1] == "filters" or (result[1] == "redirect" and truthy(is_redirect) and result[0])))'),
              ('reason-filters', 'implies(self._url_filter is not None and forall(0, len(%s), lambda j: %s), result[1] == "filters")' % (G, PASS('j', 'url_info', 'url_record')))],
-    raises={})
+    raises={}, replay='filters:replay_consult_filters')
 Contract(R_, 'FetchRule.consult_hook', {'self': TObj('FetchRule'), 'item_session': TObj('ItemSession'), 'verdict': TBool(), 'reason': TStr(), 'test_info': TOpt(INFO)},
     ret=TTuple(TBool(), TStr()), prop='C02', requires=['test_info is not None'],
     ensures=[('unchanged', 'result[0] == verdict and result[1] == reason')], raises={})
